@@ -5,6 +5,23 @@ use serde_json::{json, Value};
 use std::time::Duration;
 
 // ---- source text of a De Bruijn term: fully parenthesised, every binder gets a fresh name
+// does the JSON term refer to the variable with De Bruijn index `idx` (counted from where the term stands)?
+pub fn refers(v: &Value, idx: u64) -> bool {
+    match v["k"].as_str().unwrap_or("") {
+        "var" => v["i"].as_u64() == Some(idx),
+        "lam" | "pi" => refers(&v["a"], idx) || refers(&v["b"], idx + 1),
+        "app" | "bin" => refers(&v["a"], idx) || refers(&v["b"], idx),
+        "neg" => refers(&v["a"], idx),
+        "if" => refers(&v["c"], idx) || refers(&v["a"], idx) || refers(&v["b"], idx),
+        "let" => {
+            let defs = v["defs"].as_array().unwrap();
+            let n = defs.len() as u64;
+            defs.iter().any(|d| refers(&d["ann"], idx + n) || refers(&d["def"], idx + n)) || refers(&v["b"], idx + n)
+        }
+        _ => false,
+    }
+}
+
 pub struct Unparser {
     next: usize,
     pub pool: usize, // name pool (0: v1 v2 ...; others exercise keyword prefixes and non-ASCII names)
@@ -13,10 +30,18 @@ impl Unparser {
     pub fn new(pool: usize) -> Self {
         Unparser { next: 0, pool }
     }
+    // pool 4: a binder that is never referred to is written `_` (the placeholder takes a slot but no name)
+    fn fresh_for(&mut self, used: bool) -> String {
+        if self.pool == 4 && !used {
+            self.next += 1;
+            return "_".to_string();
+        }
+        self.fresh()
+    }
     fn fresh(&mut self) -> String {
         self.next += 1;
         match self.pool {
-            0 => format!("v{}", self.next),
+            0 | 4 => format!("v{}", self.next),
             1 => format!("if{}", self.next),
             2 => format!("\u{3bb}{}", self.next),
             _ => format!("type_{}", self.next),
@@ -37,7 +62,7 @@ impl Unparser {
             }
             "lam" | "pi" => {
                 let a = self.go(&v["a"], env);
-                let x = self.fresh();
+                let x = self.fresh_for(refers(&v["b"], 0));
                 env.push(x.clone());
                 let b = self.go(&v["b"], env);
                 env.pop();
@@ -56,7 +81,14 @@ impl Unparser {
             }
             "let" => {
                 let defs = v["defs"].as_array().unwrap();
-                let names: Vec<String> = defs.iter().map(|_| self.fresh()).collect();
+                let n = defs.len() as u64;
+                let names: Vec<String> = (0..defs.len())
+                    .map(|j| {
+                        let idx = n - 1 - j as u64;
+                        let used = refers(&v["b"], idx) || defs.iter().any(|d| refers(&d["ann"], idx) || refers(&d["def"], idx));
+                        self.fresh_for(used)
+                    })
+                    .collect();
                 env.extend(names.iter().cloned());
                 let mut s = String::from("(");
                 for (d, x) in defs.iter().zip(&names) {
@@ -319,7 +351,7 @@ pub fn replay(args: &[String]) {
         .map(|(i, l)| {
             let mut rec = util::parse_tlc_line(l, "PROG").expect("bad PROG line");
             rec["ev"] = json!(every > 0 && i % every == 0);
-            rec["pool"] = json!(i % 4);
+            rec["pool"] = json!(i % 5);
             rec.to_string()
         })
         .collect();
